@@ -101,7 +101,9 @@ def make_setup(case):
         pdts[(pdts.index("bfloat16") + 1) % len(shapes)] = "float32"
         if len(set(pdts)) < 2:
             pdts = None
-    return {"pdts": pdts, "mode": mode, "R": R, "S": Sn, "G": Gs, "comm": comm, "communicate_params": cp, "cfg": cfg, "shapes": shapes, "ranges": ranges, "cut_kind": cut_kind, "T": T, "presence_kind": pk, "presence": pres, "grad_scale": gs, "exact": exact, "grad_kind": rnd.choice(["dense", "dense", "sparse"])}
+    # the default num_trainers_per_group=-1 means "the whole replicate group"
+    g_arg = -1 if (replicated and Gs == R and rnd.random() < 0.5) else Gs
+    return {"G_arg": g_arg, "pdts": pdts, "mode": mode, "R": R, "S": Sn, "G": Gs, "comm": comm, "communicate_params": cp, "cfg": cfg, "shapes": shapes, "ranges": ranges, "cut_kind": cut_kind, "T": T, "presence_kind": pk, "presence": pres, "grad_scale": gs, "exact": exact, "grad_kind": rnd.choice(["dense", "dense", "sparse"])}
 
 
 def _flat_ranges(shapes, Sn):
@@ -168,7 +170,7 @@ def rank_program(ds, torch, S, seed, rank, world):
     full = [p.detach() for p in G.make_params(torch, S["shapes"], dt, tgen(*seed, "init"), scale=S["grad_scale"])]
     if S.get("pdts"):
         full = [f.to(getattr(torch, d)) for f, d in zip(full, S["pdts"])]
-    comm_kw = dict(communication_dtype=getattr(ds.CommunicationDType, S["comm"]), num_trainers_per_group=S["G"], communicate_params=S["communicate_params"])
+    comm_kw = dict(communication_dtype=getattr(ds.CommunicationDType, S["comm"]), num_trainers_per_group=S.get("G_arg", S["G"]), communicate_params=S["communicate_params"])
     if mode in ("hsdp", "hybrid"):
         mesh = init_device_mesh("cpu", (R, Sn), mesh_dim_names=("replicate", "shard"))
         srank = mesh.get_local_rank(1)
@@ -306,7 +308,7 @@ def run_sharded(case, prop_id):
     S = make_setup(case)
     W = S["R"] * S["S"]
     counters = {"evals": 0, "bitwise_steps": 0, "tolerance_steps": 0, "replica_comparisons": 0, "collectives_logged": 0, "group_creations_logged": 0, "shards_compared": 0, "set_interleavings": []}
-    desc = {k: S[k] for k in ("pdts", "mode", "R", "S", "G", "comm", "communicate_params", "cfg", "shapes", "ranges", "cut_kind", "presence_kind", "presence", "T")}
+    desc = {k: S[k] for k in ("G_arg", "pdts", "mode", "R", "S", "G", "comm", "communicate_params", "cfg", "shapes", "ranges", "cut_kind", "presence_kind", "presence", "T")}
     for il in range(case["interleavings"]):
         world = ranksim.World(W, interleave_seed=hash((tuple(map(str, case["seed"])), il)) & 0xFFFFFF)
         from ..common import KernelObserver
